@@ -349,6 +349,20 @@ def r02_9(run, model):
     run.floor("re-emission sites in DCE", n, 3)
 
 
+def r02_10(run, model):
+    run.rule("R02.10", "imports are pruned last: in eliminate_dead_vars the unused-import pass runs after every pass that removes code "
+                       "(an import whose only uses sat in pruned functions would survive: Go rejects `imported and not used`)")
+    DCE = "crates/compiler/src/go/dce.rs"
+    f = model.fn("eliminate_dead_vars", DCE)
+    calls = [(c["sp"][0], c["sp"][1], S.callee_name(c)) for c in S.walk(f.body) if c["k"] == "Call" and (S.callee_name(c) or "").startswith(("prune_", "dce_"))]
+    order = [n_ for _, _, n_ in sorted(calls)]
+    if "prune_unused_imports" not in order:
+        raise AnalysisIncomplete("eliminate_dead_vars: prune_unused_imports call not found")
+    ok = order[-1] == "prune_unused_imports"
+    run.ob("R02.10", "eliminate_dead_vars|imports pruned after dead code", ok, site(DCE, f.node["sp"]), f"pass order: {order}",
+           witness="a program that never prints keeps `import \"fmt\"`: its only users were runtime helpers removed by prune_dead_functions")
+
+
 def run(run, model):
     run.try_rule(r02_1, model)
     run.try_rule(r02_2, model)
@@ -357,6 +371,7 @@ def run(run, model):
     run.try_rule(r02_6, model)
     run.try_rule(r02_8, model)
     run.try_rule(r02_9, model)
+    run.try_rule(r02_10, model)
     from rules import c08
     run.try_rule(c08.r08_1, model)
     from rules import c07
